@@ -162,8 +162,21 @@ func Conform(spec *dbgen.Spec, img *dbgen.Image) error {
 			}
 		}
 		sel := colList(t.ColNames)
+		// the rowid keyword that is not shadowed by a declared column
+		rowidKw := ""
+		for _, kw := range []string{"rowid", "_rowid_", "oid"} {
+			shadowed := false
+			for _, c := range t.ColNames {
+				if strings.EqualFold(c, kw) {
+					shadowed = true
+				}
+			}
+			if !shadowed && rowidKw == "" {
+				rowidKw = kw
+			}
+		}
 		if !t.WithoutRowid {
-			sel = "rowid, " + sel
+			sel = rowidKw + ", " + sel
 		}
 		// (a) b-tree order as SQLite walks it
 		got, err := l.Query("SELECT " + sel + " FROM " + QI(t.Name) + " NOT INDEXED")
@@ -177,7 +190,7 @@ func Conform(spec *dbgen.Spec, img *dbgen.Image) error {
 			return fmt.Errorf("table %s: SQLite reads %v, builder meant %v", t.Name, clip(RowsS(got)), clip(RowsS(want)))
 		}
 		// (b) sorted by SQLite's sorter
-		ob := "+rowid"
+		ob := "+" + rowidKw
 		if t.WithoutRowid {
 			var terms []string
 			for _, c := range t.PK {
@@ -197,7 +210,7 @@ func Conform(spec *dbgen.Spec, img *dbgen.Image) error {
 			cols := dbgen.IndexKeyCols(t, ix)
 			var selc, obc []string
 			for _, c := range cols {
-				name := "rowid"
+				name := rowidKw
 				if c.Col >= 0 {
 					name = QI(t.ColNames[c.Col])
 				}
